@@ -405,7 +405,7 @@ def run(ctx):
     n, nbad, ntrue = check_hot_pixel(ctx, r, rng, not ctx.quick)
     dist['hotpixel_configurations'] = n; dist['hotpixel_mismatches'] = nbad; dist['hotpixel_intersecting'] = ntrue
     ctx.log('makePrecise / hot pixel correspondence done: %s' % json.dumps(dist))
-    cases = corpus_cases() + gen_cases(rng, 60 if ctx.quick else 600, 50 if ctx.quick else 500)
+    cases = corpus_cases() + gen_cases(rng, 100 if ctx.quick else 800, 80 if ctx.quick else 600)
     evaluate(ctx, r, cases)
     d = {'family': {}, 'call': {}, 'grid_over_extent': {}, 'skipped': {}, 'failed': {}, 'result_empty': 0, 'precision_reported': {}}
     nviol = 0; known = {}
